@@ -407,6 +407,45 @@ WEAVE_BASES = ["a{color:red}", "a{x:1;y:2}", "a{margin:0 !important}", "@media p
 WEAVE_FILLERS = [" /*c*/ ", "/*c*/", " /**/ /**/ ", "/*c*/ ", " /*c*/", "\n/*c*/\n", " /*a*//*b*/ "]
 
 
+ESC_DELIMS = ["|", ":", ".", "#", "(", "[", ",", "*", ")", "]", ">", "=", ";", "{", "}", "+", "~", "/", "!", "@", '"', "'",
+              "%", " ", "\\", "$", "^", "&", "-", "<", "?", "\x7f", "\xe9"]
+ESC_BASES = ["p|a{x:1}", "p|*{x:1}", "*|a{x:1}", "|a{x:1}", "[p|b=c]{x:1}", "a[b~=c]{x:1}", 'a[b|="c"]{x:1}', "a.b#c{x:1}",
+             "a:hover::after{x:1}", "a:lang(en){x:1}", "a:nth-child(2n+1){x:1}", "a:not(p|b){x:1}", "a:not(p|*){x:1}",
+             "a:not(.b){x:1}", "a:not([p|b]){x:1}", "a>b+c~d e{x:1}", "a,p|b{x:1}", "@media print{p|*.c>b{x:1}}",
+             "@media screen and (min-width:1px){a{x:1}}", "@media not tv,only all{p|a{x:1}}",
+             '@namespace p "u";p|a,p|*{x:1}', '@namespace p url(u);[p|b]{x:1}', "@import url(x) print,tv;",
+             '@import "x" screen and (color);', "@page a:first{margin:0}", "@page{@top-left{x:1}}", "@font-face{src:url(x)}",
+             "@variables{a:1}a{x:var(a)}", "@x y z{w}", "@x y;", "a{color:red;margin:0 auto !important}",
+             "a{width:10px;x:1.5em/2 f(b,2cm) calc(1px + 2%)}", "a{x:rgb(1,2,3) #fff U+20-7f}", "a{font:12px/1.5 b,c}",
+             "a{-moz-x:attr(y) counter(z)}", "color:red;x:1em !important", "x:f(a) b,c/d", "a{x:progid:DXImageTransform.Microsoft.y(z=1)}",
+             "a{x:expression(b)}", '@charset "utf-8";a{}']
+
+
+def ident_parts(text):
+    """split a text into ('id', name) / ('', other) parts: the name part of every IDENT, FUNCTION, HASH, DIMENSION
+    unit, at-keyword (also the known @media, @import ... keywords) of the implementation's own token stream"""
+    import re as _re
+    from css_parser.tokenize2 import Tokenizer
+    out = []
+    for t in Tokenizer().tokenize(text):
+        typ, val = t[0], t[1]
+        if typ == "IDENT":
+            out.append(("id", val))
+        elif typ == "FUNCTION" and len(val) > 1:
+            out += [("id", val[:-1]), ("", "(")]
+        elif typ == "HASH" and len(val) > 1:
+            out += [("", "#"), ("id", val[1:])]
+        elif typ == "DIMENSION":
+            m = _re.match(r"^([+-]?[0-9]*\.?[0-9]+)(.+)$", val, _re.S)
+            out += [("", m.group(1)), ("id", m.group(2))] if m else [("", val)]
+        elif (typ == "ATKEYWORD" or typ.endswith("_SYM")) and val.startswith("@") and len(val.strip()) > 1 \
+                and not val.endswith(" "):
+            out += [("", "@"), ("id", val[1:])]
+        else:
+            out.append(("", val))
+    return out
+
+
 def codec_names():
     import encodings.aliases
     import pkgutil
@@ -571,6 +610,26 @@ def build_cases(ctx, thorough):
         for k in range(1, len(lx) + 1):
             add("weave-cut", "".join(lx[:k]) + " /*c*/ ", full=True, apis=apis)
             add("weave-cut", "".join(lx[:k]) + " /*c", full=True, apis=apis)
+    # 4d. escaped delimiter characters inside identifiers, at every identifier position of the canonical
+    #     statements (namespace prefix, type, class, id, attribute name/value, pseudo name, property name, value
+    #     identifier, unit, function name, at-keyword, media type/feature, page pseudo ...), all four settings
+    delims = ESC_DELIMS if thorough else ESC_DELIMS[:14]
+    for base in ESC_BASES:
+        style = not any(c in base for c in "{}@")
+        apis = ["Y"] if style else ["S"]
+        parts = ident_parts(base)
+        idx = [i for i, (kind, _) in enumerate(parts) if kind == "id"]
+        for d in delims:
+            forms = ["\\" + d, "\\%x " % ord(d)] + (["\\%06x" % ord(d)] if thorough else [])
+            for esc in forms:
+                for i in idx:
+                    name = parts[i][1]
+                    variants = [name[:1] + esc + name[1:]]
+                    if thorough or d in "|:.#(":
+                        variants += [name + esc, esc + name]
+                    for v in variants:
+                        add("esc-ident", "".join(v if j == i else t for j, (_, t) in enumerate(parts)), full=True, apis=apis)
+                add("esc-ident-all", "".join((t[:1] + esc + t[1:]) if k == "id" else t for k, t in parts), full=True, apis=apis)
     # 4c. every codec name the interpreter knows as a sheet encoding (parse, then cssText must encode)
     for enc in codec_names():
         add("charset", '@charset "%s";a{x:"\xe9..b\u20ac"}' % enc, apis=["S"])
